@@ -26,7 +26,7 @@ from __future__ import annotations
 
 import itertools
 
-from engine.absint import Interp, Obj, PyFunc, Unsupported
+from engine.absint import Interp, Obj, PyFunc, Unsupported, _Raise as _RaiseSignal
 from engine.loader import AnalysisError
 
 P = "param.parameterized."
@@ -112,10 +112,20 @@ class World:
             if isinstance(args[1], Obj) and args[1].name == "ParameterizedMetaclass":
                 return isinstance(args[0], Obj) and args[0].attrs.get("__cls__") == META
             return isinstance(args[0], Obj) and args[0].attrs.get("__kind__") == "Parameter"
+        if fn == "type.__delattr__" and len(args) == 2:
+            args[0].attrs["__dict__"].pop(args[1], None)
+            return None
         if fn.endswith(".__set__") and len(args) == 2:
             recv = getattr(it, "current_receiver", None)
             if not (isinstance(recv, Obj) and recv.attrs.get("__kind__") == "Parameter"):
                 raise Unsupported("__set__ on %r" % (recv,))
+            if getattr(self, "rejecting", None):
+                # a class-level watcher reads the namespaces while the set is in progress, then the assignment fails
+                saved_it = self.it
+                for cn in self.rejecting:
+                    self.read(cn)
+                self.it = saved_it
+                raise _RaiseSignal("ValueError")
             recv.attrs["default"] = args[1]
             self.sets.append(recv)
             return None
@@ -143,6 +153,8 @@ class World:
         if len(outs) != 1 or outs[0].imprecise:
             raise AnalysisError("namespace model: %s.%s is not interpretable precisely (%s)" % (qual_cls.rsplit(".", 1)[-1], method, outs[0].notes[:2] if outs else "no outcome"))
         if outs[0].kind != "return":
+            if getattr(self, "rejecting", None):
+                return None
             raise AnalysisError("namespace model: %s.%s raises %s on a legal operation" % (qual_cls.rsplit(".", 1)[-1], method, getattr(outs[0], "what", "?")))
         return outs[0].value
 
@@ -158,6 +170,14 @@ class World:
         self.n_param += 1
         self.call(META, "__setattr__", self.classes[cname], [name, v])
         return v
+
+    def set_rejected(self, cname, name):
+        """`Cls.name = <value>` that is refused after a class-level watcher has read the namespaces."""
+        self.rejecting = [c for c in self.order if cname in self.shape["mro"][c]]
+        try:
+            self.call(META, "__setattr__", self.classes[cname], [name, Obj("rejected_value")])
+        finally:
+            self.rejecting = None
 
     def set_param(self, cname, name):
         p = self.new_param("%s@%s(new)" % (name, cname))
@@ -182,6 +202,8 @@ def ops(shape=None):
         out.append(("set", c, "p"))
     for c in names[1:]:
         out.append(("set", c, "q"))
+    for c in names[1:]:
+        out.append(("reject", c, "p"))
     for c in names[:2]:
         out.append(("newparam", c, "p"))
     for c in names[:3]:
@@ -191,7 +213,8 @@ def ops(shape=None):
 
 def describe(op):
     k, c, n = op
-    return {"read": "%s.param (read)" % c, "set": "%s.%s = value" % (c, n), "newparam": "%s.%s = Parameter()" % (c, n), "add": "%s.param.add_parameter('%s', ...)" % (c, n)}[k]
+    return {"read": "%s.param (read)" % c, "set": "%s.%s = value" % (c, n), "newparam": "%s.%s = Parameter()" % (c, n), "add": "%s.param.add_parameter('%s', ...)" % (c, n),
+            "reject": "%s.%s = <rejected value> (a class-level watcher reads the namespaces first)" % (c, n)}[k]
 
 
 def model(ctx, depth, shape=None):
@@ -227,6 +250,8 @@ def model(ctx, depth, shape=None):
                                         bad.append((list(tr), "the class-level set on %s changed what %s.%s gives (%s does not inherit from %s)" % (c, x, m, x, c)))
                         if bad:
                             break
+                    elif kind == "reject":
+                        w.set_rejected(c, nme)
                     elif kind == "newparam":
                         w.set_param(c, nme)
                     elif kind == "add":
